@@ -10,6 +10,7 @@ import (
 	"net/http/httptest"
 	"net/netip"
 	"net/url"
+	"sort"
 	"strconv"
 	"strings"
 	"sync"
@@ -37,6 +38,7 @@ type faCloud struct {
 	ips   map[string][]string // mac -> addresses the cloud has assigned (both families)
 	shown map[string]bool     // mac -> metadata lists what the cloud has
 	fail  map[string]bool     // eni -> the next assign is refused
+	types map[string]string   // eni -> S | T | R as DescribeNetworkInterfaces reports it (fa.attached)
 	next  int
 }
 
@@ -120,6 +122,25 @@ func (faRT) RoundTrip(req *http.Request) (*http.Response, error) {
 	status, body := 200, ""
 	faState.mu.Lock()
 	switch action := q.Get("Action"); {
+	case action == "DescribeNetworkInterfaces":
+		// the interfaces asked for by id (NetworkInterfaceId.N), with the type / traffic mode the case gave them
+		var sets []string
+		for k, v := range q {
+			if strings.HasPrefix(k, "NetworkInterfaceId.") && len(v) > 0 {
+				if ty, ok := faState.types[v[0]]; ok {
+					typ, mode := "Secondary", "Standard"
+					switch ty {
+					case "T":
+						typ = "Trunk"
+					case "R":
+						mode = "HighPerformance"
+					}
+					sets = append(sets, `{"NetworkInterfaceId":"`+v[0]+`","Type":"`+typ+`","NetworkInterfaceTrafficMode":"`+mode+`","Status":"InUse","MacAddress":"`+faMac(v[0])+`","PrivateIpSets":{"PrivateIpSet":[]},"Ipv6Sets":{"Ipv6Set":[]},"Tags":{"Tag":[]},"SecurityGroupIds":{"SecurityGroupId":[]}}`)
+				}
+			}
+		}
+		sort.Strings(sets)
+		body = `{"RequestId":"R-1","NextToken":"","TotalCount":` + strconv.Itoa(len(sets)) + `,"NetworkInterfaceSets":{"NetworkInterfaceSet":[` + strings.Join(sets, ",") + `]}}`
 	case faState.fail[eni]:
 		delete(faState.fail, eni)
 		status, body = 400, `{"Code":"InvalidParameter","Message":"injected","RequestId":"R-1","HostId":"h"}`
@@ -176,6 +197,9 @@ func faExec(c *Ctx, ops []string) []string {
 			defer wg.Done()
 			outs[i] = protect(func() string {
 				f := strings.Fields(op)
+				if len(f) > 0 && f[0] == "fa.attached" {
+					return faAttached(c, op)
+				}
 				if len(f) != 5 || f[0] != "fa.assign" || (f[1] != "4" && f[1] != "6") {
 					return "bad-op"
 				}
@@ -227,6 +251,119 @@ func faExec(c *Ctx, ops []string) []string {
 	}
 	wg.Wait()
 	return outs
+}
+
+// faGetter stands for the metadata listing of the interfaces attached at start-up
+type faGetter struct{ enis []*daemon.ENI }
+
+func (g faGetter) GetENIPrivateAddressesByMACv2(mac string) ([]netip.Addr, error) { return nil, nil }
+func (g faGetter) GetENIPrivateIPv6AddressesByMACv2(mac string) ([]netip.Addr, error) {
+	return nil, nil
+}
+func (g faGetter) GetENIs(containsMainENI bool) ([]*daemon.ENI, error) { return g.enis, nil }
+
+// faAttached: `fa.attached <trunking 0|1> <erdma 0|1> <tags 0|1> <preferred trunk index | -> <types S|T|R,...>` - the real factory's
+// listing of the interfaces found attached at daemon start-up (GetAttachedNetworkInterface): which of them the pool will treat
+// as the trunk / an RDMA interface (and therefore never dispose).  Output: the listed interfaces in id order, `i:<trunk><erdma>`.
+func faAttached(c *Ctx, op string) string {
+	f := strings.Fields(op)
+	if len(f) != 6 {
+		return "bad-op"
+	}
+	tys := strings.Split(f[5], ",")
+	if len(tys) == 0 || len(tys) > 6 {
+		return "bad-op"
+	}
+	api, err := faNewAPI()
+	if err != nil {
+		return "err-harness"
+	}
+	prefix := fmt.Sprintf("eni-att-%d-%d-", c.Seed, time.Now().UnixNano())
+	var enis []*daemon.ENI
+	faState.mu.Lock()
+	if faState.types == nil {
+		faState.types = map[string]string{}
+	}
+	for i, ty := range tys {
+		if ty != "S" && ty != "T" && ty != "R" {
+			faState.mu.Unlock()
+			return "bad-op"
+		}
+		id := prefix + strconv.Itoa(i)
+		faState.types[id] = ty
+		enis = append(enis, &daemon.ENI{ID: id, MAC: faMac(id)})
+	}
+	faState.mu.Unlock()
+	defer func() {
+		faState.mu.Lock()
+		for _, e := range enis {
+			delete(faState.types, e.ID)
+		}
+		faState.mu.Unlock()
+	}()
+	cfg := &daemon.ENIConfig{EnableIPv4: true}
+	if f[1] == "1" {
+		daemon.EnableFeature(&cfg.EniTypeAttr, daemon.FeatTrunk)
+	}
+	if f[2] == "1" {
+		daemon.EnableFeature(&cfg.EniTypeAttr, daemon.FeatERDMA)
+	}
+	if f[3] == "1" {
+		cfg.ENITags = map[string]string{"k": "v"}
+	}
+	preferred := ""
+	if f[4] != "-" {
+		i, err := strconv.Atoi(f[4])
+		if err != nil || i < 0 || i >= len(enis) {
+			return "bad-op"
+		}
+		preferred = enis[i].ID
+	}
+	ctx, cancel := context.WithTimeout(context.Background(), 3*time.Second)
+	defer cancel()
+	fac := factoryaliyun.NewAliyun(ctx, api, faGetter{enis}, nil, cfg)
+	got, err := fac.GetAttachedNetworkInterface(preferred)
+	if err != nil {
+		return "err"
+	}
+	var out []string
+	for _, e := range got {
+		i := strings.TrimPrefix(e.ID, prefix)
+		out = append(out, i+":"+b01(e.Trunk)+b01(e.ERdma))
+		// property-level (C06: the pool never deletes the trunk or an RDMA interface - it knows them by these flags): whenever the
+		// cloud was asked, a Trunk-type interface is flagged as the trunk and an RDMA one as RDMA
+		// (the cloud is asked while a type feature is unresolved - trunking without a preferred trunk among the interfaces, ERDMA - or
+		// interface tags are configured; without the question only the preferred trunk is known)
+		asked := (f[1] == "1" && preferred == "") || f[2] == "1" || f[3] == "1"
+		if n, err := strconv.Atoi(i); err == nil && n < len(tys) && asked {
+			if (tys[n] == "T") != e.Trunk || (tys[n] == "R") != e.ERdma {
+				c.Violate("C06/factory/attached-type-flags", fmt.Sprintf("interface %d is of type %s in the cloud, the factory lists it with trunk=%v erdma=%v: the pool would treat it as an ordinary secondary interface", n, tys[n], e.Trunk, e.ERdma), op)
+			}
+		}
+	}
+	sort.Strings(out)
+	if len(out) == 0 {
+		return "-"
+	}
+	return strings.Join(out, ",")
+}
+
+func faAttachedRun(c *Ctx, n int) {
+	r := c.R
+	for i := 0; i < n; i++ {
+		k := 1 + r.Intn(4)
+		var tys []string
+		for j := 0; j < k; j++ {
+			tys = append(tys, Pick(r, []string{"S", "S", "T", "T", "R"}))
+		}
+		pref := "-"
+		if r.Chance(50) {
+			pref = strconv.Itoa(r.Intn(k))
+		}
+		op := fmt.Sprintf("fa.attached %s %s %s %s %s", b01(r.Chance(60)), b01(r.Chance(30)), b01(r.Chance(50)), pref, strings.Join(tys, ","))
+		c.One(op, faAttached(c, op), strings.Contains(op, "T"))
+		c.Count("factory-attached")
+	}
 }
 
 func faRun(c *Ctx, n int) {
